@@ -641,7 +641,7 @@ impl Prop for C03 {
         true
     }
     fn random_cases(tier: Tier) -> u64 {
-        tier.pick(12_000, 3_000_000)
+        tier.pick(60_000, 3_000_000)
     }
     fn strategy(tier: Tier) -> BoxedStrategy<Case> {
         let (max_len, max_ops) = tier.pick((64usize, 12usize), (1024, 40));
